@@ -1,6 +1,7 @@
 import UtilModel.Keyed.Corollaries2
 import UtilModel.Keyed.C07Retry
 import UtilModel.Keyed.ObsC07
+import UtilModel.Keyed.ObsC06f
 /-!
 # keyed — property theorems (C06, C07)
 
@@ -77,6 +78,18 @@ theorem C06_refs_present_step (es : List Ev) (s s' : St) (e : Ev)
 /-- **C06 (double release).** Releasing a reference a second time changes nothing. -/
 theorem C06_double_release (a : ASt) (f f' : Nat → Bool) (r : Nat) :
     specRelease (specRelease a f r) f' r = specRelease a f r := release_twice a f f' r
+
+/-- **C06, observable form.** Every observable trace of the model is accepted by the executable monitor
+`monC06o`: the key-set specification of `Spec.lean` as a knowledge automaton over what a history shows
+(per key `absent`, `present`, "removed with a delay in epoch `e`, or already gone", or `any`). It checks
+the `existed`/`data`/`added`/`removed`/count results of every call against the set asked for so far, keys
+removed with a delay staying until their epoch ends and gone at the next quiescence, references keeping
+their key in the set, a reference released twice counting once. While calls of two callers overlap it
+knows nothing about the keys (state `any`); the unobservable `failed` oracle is over-approximated. The
+same monitor runs on the histories of the real code (check C06). The proof is a simulation built on
+`step_refines`/`execOp_refines` (`ObsSpec*.lean`, `ObsC06a`–`f.lean`). -/
+theorem C06_obs (es : List Ev) (s : St) (hr : model.run model.init es = some s) :
+    monC06o.accepts (es.filterMap model.obs) = true := C06o_obs es s hr
 
 /-! ## C07 — per key one live routine, cancelled on removal, retried while wanted -/
 
